@@ -138,6 +138,20 @@ def g_class_list(r):
              "abstract": r.random() < 0.25} for n in names]
 
 
+def coq_codes(tag, ctype, fn, terms, shard=300):
+    """Evaluate `fn : ctype -> N` on every term inside Coq; returns the list of numbers."""
+    import re
+    out = []
+    for k in range(0, len(terms), shard):
+        part = terms[k:k + shard]
+        txt = coq_eval(f"c07_{tag}_{k}", IMPORTS, f"Definition cs : list ({ctype}) := [{'; '.join(part)}].", f"map ({fn}) cs")
+        nums = [int(x) for x in re.findall(r"\d+", txt.replace("%N", ""))]
+        if len(nums) != len(part):
+            raise RuntimeError(f"coq_codes {tag}: expected {len(part)} numbers, got {txt[:300]}")
+        out += nums
+    return out
+
+
 # ---------------------------------------------------------------------------- term printers
 def obs_sres(rs):
     if "ok" in rs:
@@ -195,6 +209,8 @@ def run(ck: Check):
               "Q_name", "as", "as_sert"] + NUMS + keyword.kwlist + STOP_EXTRA
     for s in names:
         for fn in (TEXT_FN if r.random() < 0.25 else r.sample(TEXT_FN, 4)):
+            if fn == "capitalize" and s and ord(s[0]) > 127:
+                continue  # model domain: capitalize is only ever applied to mixed_case output (ASCII)
             add({"op": "text", "fn": fn, "s": s}, kind="text", fn=TEXT_FN.index(fn))
     for cp in list(range(0, 130)) + [r.randint(128, 0x10FFFF) for _ in range(60 * N)]:
         add({"op": "classify", "c": chr(cp)}, kind="classify")
@@ -287,18 +303,15 @@ def run(ck: Check):
                    {"op": it[1], "impl": it[2]})
     # oracle: identifier and not keyword whenever the implementation returns a name
     ok_items = [it for it in items if "ok" in it[2]]
-    oterms = [cstr(it[2]["ok"]) for it in ok_items]
-    for it in run_pred("safe_usable", "str", "usable_nameb", ok_items, oterms):
-        cls_bad = run_pred("safe_kwnr", "str", "(fun r => negb (keyword_not_reserved r))", [it], [cstr(it[2]["ok"])])
-        if cls_bad:
-            ck.failure("keyword-not-reserved", f"safe_name({it[1]['name']!r}, {it[1]['prefix']!r}, {it[1]['case']}) = {it[2]['ok']!r} is a Python keyword",
-                       {"op": it[1], "impl": it[2]})
-        elif it[1]["case"] == "originalCase":
-            ck.failure("original-case-non-identifier", f"safe_name({it[1]['name']!r}, {it[1]['prefix']!r}, originalCase) = {it[2]['ok']!r} is not an identifier",
-                       {"op": it[1], "impl": it[2]})
-        else:
-            ck.failure("safe-name-not-identifier", f"safe_name({it[1]['name']!r}, {it[1]['prefix']!r}, {it[1]['case']}) = {it[2]['ok']!r} is not a usable identifier",
-                       {"op": it[1], "impl": it[2]})
+    codes = coq_codes("safe_usable", "str", "name_verdict", [cstr(it[2]["ok"]) for it in ok_items])
+    for it, code in zip(ok_items, codes):
+        what = f"safe_name({it[1]['name']!r}, {it[1]['prefix']!r}, {it[1]['case']}) = {it[2]['ok']!r}"
+        if code == 1:
+            ck.failure("keyword-not-reserved", what + " is a Python keyword", {"op": it[1], "impl": it[2]})
+        elif code == 2 and it[1]["case"] == "originalCase":
+            ck.failure("original-case-non-identifier", what + " is not an identifier", {"op": it[1], "impl": it[2]})
+        elif code != 0:
+            ck.failure("safe-name-not-identifier", what + " is not a usable identifier", {"op": it[1], "impl": it[2]})
     # cross-check the Spec notion against the interpreter on the produced names
     id_ops = [{"op": "text", "fn": "isidentifier", "s": it[2]["ok"]} for it in ok_items]
     id_res = run_impl("impl_c07.py", id_ops, with_shims=True)
@@ -306,15 +319,16 @@ def run(ck: Check):
     for i in coq_bad_indices("c07_idspec", IMPORTS, "", "str * bool", "(fun c => Bool.eqb (usable_nameb (fst c)) (snd c))", idt):
         ck.failure("spec-identifier-vs-interpreter", f"Spec/PyIdent (with XID tables) and str.isidentifier/keyword disagree on {id_ops[i]['s']!r}",
                    {"name": id_ops[i]["s"]})
+    rec_items = [it for it in items if it[2].get("err") == "RecursionError"]
+    codes = coq_codes("safe_term", "str", "(fun p => if slug_alpha p then 1 else 0)", [cstr(it[1]["prefix"]) for it in rec_items])
+    for it, code in zip(rec_items, codes):
+        # termination: only degenerate prefixes may recurse forever -- the theorem's guard, evaluated in Coq
+        if code == 1:
+            ck.failure("safe-name-diverges", f"safe_name recursion does not end for a valid prefix: {it[1]}", {"op": it[1]})
+        else:
+            ck.failure("safe-name-degenerate-prefix", f"safe_name({it[1]['name']!r}, prefix={it[1]['prefix']!r}) recurses forever", {"op": it[1]})
     for it in items:
-        if it[2].get("err") == "RecursionError":
-            # termination: only degenerate prefixes may recurse forever -- judged in Coq by the theorem's guard
-            bad = run_pred("safe_term", "str", "(fun p => negb (slug_alpha p))", [it], [cstr(it[1]["prefix"])])
-            if bad:
-                ck.failure("safe-name-diverges", f"safe_name recursion does not end for a valid prefix: {it[1]}", {"op": it[1]})
-            else:
-                ck.failure("safe-name-degenerate-prefix", f"safe_name({it[1]['name']!r}, prefix={it[1]['prefix']!r}) recurses forever", {"op": it[1]})
-        elif "err" in it[2]:
+        if "err" in it[2] and it[2]["err"] != "RecursionError":
             ck.failure("unexpected-exception-" + it[2]["err"], f"safe_name {it[1]} raised {it[2]}", {"op": it[1], "impl": it[2]})
 
     # -- filters
@@ -326,11 +340,12 @@ def run(ck: Check):
         ck.failure(f"corr-filter-{it[1]['fn']}", f"model and implementation disagree on Filters.{it[1]['fn']}({it[1]['name']!r}) under {it[1]['conv']}: impl={it[2]}",
                    {"op": it[1], "impl": it[2]})
     ok_items = [it for it in items if "ok" in it[2] and it[1]["fn"] != "package_name"]
-    for it in run_pred("filter_usable", "str", "usable_nameb", ok_items, [cstr(it[2]["ok"]) for it in ok_items]):
-        kw = run_pred("filter_kwnr", "str", "(fun r => negb (keyword_not_reserved r))", [it], [cstr(it[2]["ok"])])
+    codes = coq_codes("filter_usable", "str", "name_verdict", [cstr(it[2]["ok"]) for it in ok_items])
+    for it, code in zip(ok_items, codes):
         case = dict(DEFAULT_CONV, **it[1]["conv"])[it[1]["fn"]][0]
-        cls = "keyword-not-reserved" if kw else ("original-case-non-identifier" if case == "originalCase" else "safe-name-not-identifier")
-        ck.failure(cls, f"Filters.{it[1]['fn']}({it[1]['name']!r}) = {it[2]['ok']!r} under {it[1]['conv']}", {"op": it[1], "impl": it[2]})
+        cls = {1: "keyword-not-reserved", 2: "original-case-non-identifier" if case == "originalCase" else "safe-name-not-identifier"}.get(code)
+        if cls:
+            ck.failure(cls, f"Filters.{it[1]['fn']}({it[1]['name']!r}) = {it[2]['ok']!r} under {it[1]['conv']}", {"op": it[1], "impl": it[2]})
     for it in items:
         if "err" in it[2] and it[2]["err"] != "RecursionError":
             ck.failure("unexpected-exception-" + it[2]["err"], f"Filters.{it[1]['fn']} {it[1]} raised {it[2]}", {"op": it[1], "impl": it[2]})
@@ -360,9 +375,7 @@ def run(ck: Check):
     dup_items = [it for it in items if len(set(it[2]["fields"])) != len(it[2]["fields"]) and it[0] not in corr_bad_ids]
     if dup_items:
         cterms = [f"({conv_term(it[3]['conv'])}, {cbool(it[2]['enum'])}, {lstr(it[2]['ok'])}, {lstr(it[2]['fields'])})" for it in dup_items]
-        codes = coq_eval("c07_dupfields", IMPORTS, f"Definition cs : list (list (str * str) * bool * list str * list str) := [{'; '.join(cterms)}].",
-                         "map classify_dup_fields cs")
-        codes = [int(x) for x in __import__("re").findall(r"(\d+)%?N?", codes.replace("%N", ""))]
+        codes = coq_codes("dupfields", "list (str * str) * bool * list str * list str", "classify_dup_fields", cterms)
         pref = coq_bad_indices("c07_prefcoll", IMPORTS, "", "list (str * str * option str)", "(fun l => negb (model_preference_collision l))",
                                [clist(init_attrs(it), attr_term, "str * str * option str") for it in dup_items])
         pref = set(pref)
@@ -391,9 +404,7 @@ def run(ck: Check):
                  and it[0] not in corr_bad_ids]
     if dup_items:
         cterms = [f"({conv_term(it[3]['conv'])}, {lstr(it[2]['ok'])}, {lstr(it[2]['class_names'])})" for it in dup_items]
-        codes = coq_eval("c07_dupclasses", IMPORTS, f"Definition cs : list (list (str * str) * list str * list str) := [{'; '.join(cterms)}].",
-                         "map classify_dup_classes cs")
-        codes = [int(x) for x in __import__("re").findall(r"(\d+)", codes.replace("%N", ""))]
+        codes = coq_codes("dupclasses", "list (str * str) * list str * list str", "classify_dup_classes", cterms)
         for it, code in zip(dup_items, codes):
             what = f"classes {[(c['name'], c['abstract'], c['element']) for c in it[1]['classes']]} -> names {it[2]['ok']} -> class names {it[2]['class_names']}"
             if code == 1:
